@@ -170,7 +170,29 @@ def scenario_static_changes_while_running():
     return spec, [], {"njob": 2}
 
 
-SCENARIOS = {"amend_running_producer": scenario_amend_running_producer,
+def scenario_forced_overlap():
+    """The exact order that makes an amended input unfresh, forced with signal/await: the consumer C
+    starts while the producer P runs; P stops; Y (which needs P's output) starts; X stops; only
+    then C amends P's output.  C must be deferred and run again, never succeed on this attempt."""
+    def step(prog, inp, out):
+        return ["raw", {"a": "step", "cmd": "do " + json.dumps(prog), "inp": inp, "out": out}]
+    P = [{"a": "read", "path": "src/a.txt"}, {"a": "await", "key": "c_started"}, {"a": "write", "path": "out/p.txt"}]
+    C = [{"a": "read", "path": "src/c.txt"}, {"a": "signal", "key": "c_started"},
+         {"a": "await", "key": "x_finishing"}, {"a": "sleep", "s": 0.15},
+         {"a": "amend", "inp": ["out/p.txt"]}, {"a": "read", "path": "out/p.txt"}, {"a": "write", "path": "out/c.txt"}]
+    X = [{"a": "read", "path": "src/x.txt"}, {"a": "await", "key": "y_started"}, {"a": "signal", "key": "x_finishing"},
+         {"a": "write", "path": "out/x.txt"}]
+    Y = [{"a": "read", "path": "out/p.txt"}, {"a": "signal", "key": "y_started"}, {"a": "sleep", "s": 0.4},
+         {"a": "write", "path": "out/y.txt"}]
+    spec = {"sources": {"src/a.txt": "a\n", "src/c.txt": "c\n", "src/x.txt": "x\n"}, "env": {}, "steps": {},
+            "plans": {".": [["static", ["src/a.txt", "src/c.txt", "src/x.txt"]],
+                            step(P, ["src/a.txt"], ["out/p.txt"]), step(C, ["src/c.txt"], ["out/c.txt"]),
+                            step(X, ["src/x.txt"], ["out/x.txt"]), step(Y, ["out/p.txt"], ["out/y.txt"])]},
+            "order": []}
+    return spec, [], {"njob": 3}
+
+
+SCENARIOS = {"forced_overlap": scenario_forced_overlap, "amend_running_producer": scenario_amend_running_producer,
              "static_changes_while_running": scenario_static_changes_while_running}
 
 
@@ -405,7 +427,7 @@ def run_case(case):
         try:
             if "scenario" in case:
                 spec, phases, cfg0 = SCENARIOS[case["scenario"]]()
-                reps = 50
+                reps = 3 if case["scenario"] == "forced_overlap" else 30
             else:
                 spec = gen.gen_project(rng, prob={"res": 0.2})
                 phases = gen.gen_history(rng, spec, nphase=rng.randint(0, 2))
@@ -425,6 +447,8 @@ def run_case(case):
                     if rng.random() < 0.3:
                         cfg = {**cfg, "keep_going": True}
                     mode = rng.choice(["jitter", "serial", "serial", "free"])
+                    if case.get("scenario") == "forced_overlap":
+                        mode = "free"
                     prob = rng.choice([0, 0, 0.15, 0.3])
                     one_build(cfg, mode, prob, dict(cur.get("env", {})), f"{sub} rep {rep} build {k} ({mode})")
                     # the gremlin changed a user file: the user-file map no longer describes the disk
